@@ -248,11 +248,26 @@ def lambdas(draw, depth, cfg):
         return ("lambda", owner, "any", None, None)
     var = draw(st.sampled_from(VARS))
     body = draw(lambda_bodies(depth, cfg, var))
-    if depth > 0 and draw(st.integers(0, 4)) == 0:
+    k = draw(st.integers(0, 5)) if depth > 0 else 9
+    if k == 0:
         # an inner lambda that re-binds the same variable name, followed by a use of the outer one
         inner = ("lambda", ("path", ident(var), draw(st.sampled_from(SAFE_NAMES))), "any", var,
                  ("cmp", "eq", ("path", ident(var), "n"), ("lit", "int", "1")))
         body = ("bool", "and", inner, ("cmp", "eq", ("path", ident(var), draw(st.sampled_from(SAFE_NAMES))), ident(var)))
+    elif k == 1:
+        # an inner lambda over a collection of the outer variable that binds ANOTHER name and whose body
+        # mentions the outer variable (bare and as a path root) next to its own and to a plain field
+        var2 = draw(st.sampled_from([v for v in VARS if v != var]))
+        names = draw(st.lists(st.sampled_from(SAFE_NAMES), min_size=4, max_size=4))
+        outer_use = ("path", ident(var), names[0]) if draw(st.booleans()) else ident(var)
+        ib = ("cmp", draw(st.sampled_from(["gt", "eq", "ne"])), ("path", ident(var2), names[1]), outer_use)
+        c2 = draw(st.integers(0, 2))
+        if c2 == 0:
+            ib = ("bool", "and", ib, ("cmp", "lt", ("path", ident(var2), names[2]), ident(names[3])))
+        elif c2 == 1:
+            ib = ("bool", "or", ("cmp", "eq", ident(var), ident(names[3])), ib)
+        inner = ("lambda", ("path", ident(var), names[2]), draw(st.sampled_from(["any", "all"])), var2, ib)
+        body = inner if draw(st.booleans()) else ("bool", draw(st.sampled_from(["and", "or"])), inner, body)
     return ("lambda", owner, "any" if c < 6 else "all", var, body)
 
 
